@@ -51,13 +51,16 @@ func (j inject) String() string {
 	if j.Mode == "" {
 		return "none"
 	}
+	if j.Mode == "signal" {
+		return fmt.Sprintf("signal#%d signo=%d", j.N, j.Errno)
+	}
 	if j.Mode == "fail" {
 		return fmt.Sprintf("fail#%d errno=%d persist=%v", j.N, j.Errno, j.Persist)
 	}
 	return fmt.Sprintf("%s#%d", j.Mode, j.N)
 }
 
-func gxzBinary() string  { return os.Getenv("VERIF_GXZ") }
+func gxzBinary() string           { return os.Getenv("VERIF_GXZ") }
 func sysstepBin(c *ev.Ctx) string { return filepath.Join(c.WorkDir, "bin", "sysstep") }
 
 // runGxz runs the gxz binary under the syscall stepper in dir.
@@ -73,6 +76,8 @@ func runGxz(c *ev.Ctx, dir string, args []string, inj inject, countStdout bool, 
 		a = append(a, "-k", fmt.Sprint(inj.N))
 	case "kill-after":
 		a = append(a, "-K", fmt.Sprint(inj.N))
+	case "signal":
+		a = append(a, "-s", fmt.Sprint(inj.N), fmt.Sprint(inj.Errno))
 	case "fail":
 		a = append(a, "-f", fmt.Sprint(inj.N), fmt.Sprint(inj.Errno))
 		if inj.Persist {
